@@ -1224,6 +1224,11 @@ FOREIGN = {
 }
 
 
+# the elements each injector puts in (errors anywhere else during the injection belong to python-pptx's own calls)
+FOREIGN_TAGS = {"gradpath": ("a:path", "a:fillToRect"), "custdash": ("a:custDash", "a:ds"), "sysclr": ("a:sysClr",),
+                "prstclr": ("a:prstClr", "a:alpha")}
+
+
 def foreign_ops(what, k, rng):
     """setup, then for every operation of the follow-up selectors: put candidate k into the foreign state (the
     harness does that with lxml: a schema-valid state that only other producers write) and apply the operation"""
@@ -1588,8 +1593,16 @@ def _worker(job):
     harness_bad = []
     for (j, name, ne, h) in r["events"]:
         if r["ops"][j].get("harness"):
-            harness_bad.append((op_name(r["ops"][j]), name, [list(e) for e in ne]))
-            continue
+            # putting an object into a foreign state = python-pptx calls that reach the object (judged like any other
+            # operation: the route may itself create something, e.g. c:marker under a bubble series) + an lxml swap by the
+            # harness (the harness is at fault only for errors at the elements IT put in)
+            mine = FOREIGN_TAGS.get(r["ops"][j].get("what"), ())
+            hb = [e for e in ne if str(e[1]).split("/@")[0] in mine]
+            if hb:
+                harness_bad.append((op_name(r["ops"][j]), name, [list(e) for e in hb]))
+            ne = [e for e in ne if e not in hb]
+            if not ne:
+                continue
         for e in ne:
             sig, cand_over = base_sig(r, j, e)
             if sig in seen:
